@@ -29,6 +29,30 @@ CHECKS = {
         design="4/C07"),
 }
 
+CHECKS["C04"] = dict(
+    technique="Hypothesis-generated exact spacetimes (closed-form g, dg, ddg) "
+              "-> two-resolution convergence-order oracle against an "
+              "independent pointwise 4D reference, per output key and "
+              "component block",
+    text="Random smooth spacetimes with generic lapse, shift and "
+         "non-diagonal metric (families W, F, KS, PP) are fed to AurelCore in "
+         "both input forms; every C04 key must converge to the exact 4D "
+         "value at the scheme's order (both st_Ricci branches, both gdet "
+         "branches, Riemann symmetries). Exploration of inputs and "
+         "configurations; the oracle is self-tested at start-up.",
+    design="4/C04")
+CHECKS["C05"] = dict(
+    technique="Hypothesis-generated curved metrics/shifts and smooth test "
+              "tensor fields with analytic derivatives -> two-resolution "
+              "convergence-order oracle against exact Christoffel-based "
+              "values, plus metamorphic identities and error-path checks",
+    text="Every supported indexing of s_covd, s_div, s_curl, st_covd, "
+         "Lie_beta (with density weights) and the spatial curvature keys "
+         "(direct and BSSNOK-split) are compared with exact values at two "
+         "resolutions; metric compatibility, raise/lower commutation and "
+         "Lie_beta gamma = 2 D_(i beta_j) must converge to zero.",
+    design="4/C05")
+
 NOT_YET = "check not built yet in this session (see DESIGN.md section 4)"
 
 
